@@ -4,6 +4,7 @@
 import BumpverVerif.Driver.Common
 import BumpverVerif.Driver.V2
 import BumpverVerif.Model.Cli
+import BumpverVerif.Model.History
 open Lean
 namespace BV.Drv
 
@@ -78,6 +79,25 @@ def handleCli : Handler := fun op j =>
     pure (match outcomeJson o with
       | Json.obj kvs => Json.obj (kvs.insert "start" (jstr start))
       | x => x)
+  | "history" => some do
+    -- {"pattern", "config_version", "tags": [...], "today", "ops": [{"candidate": str|null, "commit": b, "tag": b}, …]}
+    let pat ← getStr j "pattern"
+    let cfgv ← getStr j "config_version"
+    let tags ← getStrList j "tags"
+    let today ← getDate j "today"
+    let ops ← match j.getObjVal? "ops" with
+      | .ok (Json.arr a) => a.toList.mapM (fun o => do
+          let c ← getOptStr o "candidate"
+          let cm ← getBool o "commit"
+          let tg ← getBool o "tag"
+          pure ({ candidate := c, commit := cm, tag := tg } : HOp))
+      | _ => .error "missing ops"
+    if nonAscii cfgv || tags.any nonAscii || ops.any (fun o => (o.candidate.map nonAscii).getD false) then pure unsupported else
+    let (final, oks) := ops.foldl (fun (acc : HState × List Bool) op =>
+      let (s', ok) := hstep pat today acc.1 op
+      (s', acc.2 ++ [ok])) ({ cfg := cfgv, tags := tags }, [])
+    pure (Json.mkObj [("oks", Json.arr (oks.map Json.bool).toArray), ("config_version", jstr final.cfg),
+                      ("tags", Json.arr (final.tags.map jstr).toArray)])
   | _ => none
 
 end BV.Drv
